@@ -80,7 +80,8 @@ PROPS = {
                        "string operators, intN/uintN readers, filesize, rule references, externals, defined/not/and/or, "
                        "deliberately undefined operands) are printed with minimal parentheses from the manual's precedence "
                        "table, compiled and evaluated by the engine; each rule's verdict is compared with a reference "
-                       "interpreter that works on match lists computed by the (C01-checked) text-string model."),
+                       "interpreter that works on match lists computed by the (C01-checked) text-string model; every buffer is scanned a second time with "
+                       "SCAN_FLAGS_FAST_MODE, which must give the verdicts of the normal scan."),
         "level_note": ("Trusts the reference interpreter and its stated assumptions; depth <= 6, <= 4 nested loops, loop ranges "
                        "kept small by construction, constants kept inside the compile-time checks (rejections are counted "
                        "as discards); `matches` is covered by C03, module objects by C06/C14."),
@@ -125,7 +126,9 @@ PROPS = {
                        "per-string matches) through rules-level and scanner scans, enumerate the same rules/tags/metas/"
                        "strings/externals, the original must scan identically after saving, and the bytes must be "
                        "identical across two saves, a save of the loaded rules, two compilations in one process and a "
-                       "compilation in a separate process (ASLR on, and under setarch -R)."),
+                       "compilation in a separate process (ASLR on, and under setarch -R). Twelve fixed cases pad a rule set until the string-pool section of the saved image "
+                       "is exactly 64 KiB, 128 KiB, 20 KiB or 7 KiB (and one byte either side) and load it through memory, pipes fed in "
+                       "64 KiB / 4 KiB / 1000-byte / uneven chunks and a file."),
         "level_note": ("Trusts the shim; the cross-process comparison runs on ~4% of the cases (a helper process per case); "
                        "string externals redefined at rules level are exercised only by the known-finding fixed case."),
         "quick": (1200, 45), "thorough": (50000, 600),
@@ -180,7 +183,7 @@ PROPS = {
         "level_text": ("Generated histories of external-variable definitions at compiler, rule-set and scanner level (all four "
                        "types; valid, duplicate, unknown identifier, incompatible type), scanner creations, scans and scanner "
                        "destructions are run against the library and against a three-level environment model; after every "
-                       "scan 35 exposing rules (equality with every domain value, arithmetic, `at`, `in`, `#a in`, `@a[v]`, "
+                       "scan 39 exposing rules (strings used as booleans, equality with every domain value, arithmetic, `at`, `in`, `#a in`, `@a[v]`, "
                        "`v of`, uintN(v), loop bounds, string operators, float comparisons) must be true exactly when the "
                        "model's effective value says so; rejected definitions must return the documented code and change "
                        "nothing; LeakSanitizer runs after every history."),
@@ -224,10 +227,15 @@ PROPS = {
                        "set_timeout and scanner-level definitions; after every scan the full trace (messages, per-string "
                        "matches, return code) must equal that of the same scan on a freshly created scanner with the same "
                        "settings. The rule set spans 14 namespaces with global gates that depend on the kind of buffer; rules expose entrypoint, filesize, pe/elf/macho fields, math/hash values, string counts, "
-                       "offsets and lengths. The scanner is destroyed after the history and LeakSanitizer is run."),
+                       "offsets and lengths. The scanner is destroyed after the history and LeakSanitizer is run. "
+                       "Six fixed histories add the process-memory entry point: a scanner whose flags and timeout are set once scans an "
+                       "idle child process through yr_scanner_scan_proc (ended normally, by ABORT, by ERROR early or late, in fast mode, "
+                       "or against a pid that does not exist) and then PE and ELF samples from memory and from a file, each compared "
+                       "with a fresh scanner."),
         "level_note": ("Trusts the shim; scans ending in ERROR_TOO_MANY_RE_FIBERS (9% of scans) and in a muted string "
                        "after 1,000,000 matches (3%, about a second each) are part of the histories; timeouts are exercised "
-                       "by C15; histories of 3-9 operations."),
+                       "by C15; histories of 3-9 operations; process scans appear only in the six fixed histories (generated rules "
+                       "over a process image take minutes under ASan)."),
         "quick": (800, 45), "thorough": (40000, 600),
         "floor": 50,
         "rule": ("case = fixed 20-rule set + 1-4 generated rules, a history of 3-9 operations (75% scans). Non-trivial: a "
